@@ -49,8 +49,12 @@ pub struct Step {
 pub struct ClientScript {
     pub start_ms: u64,
     pub steps: Vec<Step>,
-    /// "close" | "fin" | "silent" | "stay"
+    /// "close" | "fin" | "silent" | "stay" | "close-near-timeout" (stop answering pings, then
+    /// send the Close frame when the heartbeat timeout is about to be observed)
     pub ending: String,
+    /// close-near-timeout: offset in virtual microseconds around the expected timeout instant
+    #[serde(default)]
+    pub near_us: i64,
 }
 
 #[derive(Serialize, Deserialize, Clone, Debug)]
@@ -107,7 +111,7 @@ fn frame_bytes(opcode: u8, payload: &[u8], fin: bool, k: u32) -> Vec<u8> {
     f.encode()
 }
 
-fn run_client(cid: usize, sc: ClientScript, server: SocketAddr, out: Arc<Mutex<ClientOut>>) {
+fn run_client(cid: usize, sc: ClientScript, server: SocketAddr, out: Arc<Mutex<ClientOut>>, hb_timeout_ms: u64) {
     humsim::thread::sleep(Duration::from_millis(sc.start_ms));
     let mut s = {
         let mut r = None;
@@ -144,6 +148,8 @@ fn run_client(cid: usize, sc: ClientScript, server: SocketAddr, out: Arc<Mutex<C
     let leftover: Vec<u8> = log.bytes[head_end..].to_vec();
     // reader: collects frames, answers pings (unless silent)
     let silent = Arc::new(AtomicBool::new(false));
+    let last_pong_ns = Arc::new(std::sync::atomic::AtomicU64::new(sim::now_ns()));
+    let last_pong2 = last_pong_ns.clone();
     let stop = Arc::new(AtomicBool::new(false));
     // (a simulator mutex: it is held across socket writes, which are decision points)
     let wlock = Arc::new(humsim::sync::Mutex::new(()));
@@ -166,6 +172,7 @@ fn run_client(cid: usize, sc: ClientScript, server: SocketAddr, out: Arc<Mutex<C
                                 if !silent2.load(Ordering::SeqCst) {
                                     let _g = wlock2.lock().unwrap();
                                     let _ = wr.write_all(&frame_bytes(0xA, &f.payload, true, 99));
+                                    last_pong2.store(sim::now_ns(), Ordering::SeqCst);
                                 }
                             }
                             0xA => {}
@@ -258,6 +265,22 @@ fn run_client(cid: usize, sc: ClientScript, server: SocketAddr, out: Arc<Mutex<C
             let _ = s.shutdown(humsim::net::Shutdown::Write);
             let _ = reader.join();
         }
+        "close-near-timeout" => {
+            // stop answering pings (but stay reachable); the server last heard a pong at about
+            // last_pong_ns, so it will observe the timeout at about last_pong_ns + timeout
+            silent.store(true, Ordering::SeqCst);
+            let due = last_pong_ns.load(Ordering::SeqCst) as i64 + hb_timeout_ms as i64 * 1_000_000 + sc.near_us * 1000;
+            let now = sim::now_ns() as i64;
+            if due > now {
+                humsim::thread::sleep(Duration::from_nanos((due - now) as u64));
+            }
+            out.lock().unwrap().close_sent_at = Some(sim::decision_index());
+            {
+                let _g = wlock.lock().unwrap();
+                let _ = s.write_all(&frame_bytes(0x8, &[0x03, 0xe8], true, 5));
+            }
+            let _ = reader.join();
+        }
         "silent" => {
             out.lock().unwrap().close_sent_at = Some(sim::decision_index());
             silent.store(true, Ordering::SeqCst);
@@ -301,7 +324,7 @@ impl Prop for C12 {
         ]
     }
     fn expected_counters(&self) -> Vec<&'static str> {
-        vec!["c12.clients", "c12.messages_sent", "c12.fragmented", "c12.bursts", "c12.unicast_replies", "c12.handler_broadcasts", "c12.external_sends", "c12.close_endings", "c12.fin_endings", "c12.silent_endings", "c12.heartbeat_on", "c12.linked", "c12.unlinked", "c12.single_handler_thread", "net.silent_peer"]
+        vec!["c12.clients", "c12.messages_sent", "c12.fragmented", "c12.bursts", "c12.unicast_replies", "c12.handler_broadcasts", "c12.external_sends", "c12.close_endings", "c12.fin_endings", "c12.silent_endings", "c12.close_near_timeout_endings", "c12.heartbeat_on", "c12.linked", "c12.unlinked", "c12.single_handler_thread", "net.silent_peer"]
     }
     fn real_vs_stub(&self) -> (Vec<&'static str>, Vec<&'static str>) {
         (vec!["AsyncWebsocketApp::run, AsyncStream/AsyncSender, async_websocket_handler + handshake, WebsocketStream::recv_nonblocking/send/ping, ThreadPool, App"], vec!["threads, Mutex/mpsc, sleep, Instant, TCP, the streams HashMap's hasher (humsim)", "clients are harness reference RFC 6455 implementations"])
@@ -333,9 +356,10 @@ impl Prop for C12 {
                 0..=2 => "close",
                 3..=4 if heartbeat.is_some() => "fin",
                 5 if heartbeat.is_some() => "silent",
+                6 if heartbeat.is_some() => "close-near-timeout",
                 _ => "stay",
             };
-            clients.push(ClientScript { start_ms: [0u64, 0, 3, 20, 100][rng.usize_below(5)], steps, ending: ending.into() });
+            clients.push(ClientScript { start_ms: [0u64, 0, 3, 20, 100][rng.usize_below(5)], steps, ending: ending.into(), near_us: rng.below(24_000) as i64 - 4_000 });
         }
         let next = rng.range(0, 3) as usize;
         let external = (0..next).map(|_| Ext { at_ms: [5u64, 30, 150, 600][rng.usize_below(4)], to: if rng.chance(1, 2) { None } else { Some(rng.usize_below(nclients)) } }).collect();
@@ -372,7 +396,7 @@ impl Prop for C12 {
         // "abrupt disconnect with heartbeat on")
         let mut scn = scn;
         for c in scn.clients.iter_mut() {
-            if hb.is_none() && (c.ending == "fin" || c.ending == "silent") {
+            if hb.is_none() && (c.ending == "fin" || c.ending == "silent" || c.ending == "close-near-timeout") {
                 c.ending = "stay".into();
             }
         }
@@ -441,11 +465,12 @@ impl Prop for C12 {
             let mut hs = Vec::new();
             for (cid, c) in scn.clients.iter().enumerate() {
                 let (c, o) = (c.clone(), outs2[cid].clone());
-                hs.push((c.ending.clone(), humsim::thread::spawn(move || run_client(cid, c, server, o))));
+                let hbt = hb.map(|x| x.1).unwrap_or(0);
+                hs.push((c.ending.clone(), humsim::thread::spawn(move || run_client(cid, c, server, o, hbt))));
             }
             // wait for the clients that end by themselves; then let the server settle
             for (ending, h) in hs {
-                if ending == "close" || ending == "fin" {
+                if ending == "close" || ending == "fin" || ending == "close-near-timeout" {
                     let _ = h.join();
                 }
             }
@@ -541,6 +566,9 @@ impl Prop for C12 {
             }
             // R2 exactly once (multiset)
             let owed = c.ending != "silent";
+            if c.ending == "close-near-timeout" {
+                rr.count("c12.close_near_timeout_endings", 1);
+            }
             let mut sent_count: BTreeMap<Vec<u8>, i64> = BTreeMap::new();
             for (p, _) in &o.sent {
                 *sent_count.entry(p.clone()).or_insert(0) += 1;
@@ -566,7 +594,7 @@ impl Prop for C12 {
                 }
             }
             // R3 disconnect exactly once per closed client
-            let closed = c.ending == "close" || c.ending == "fin" || (c.ending == "silent" && hb.is_some());
+            let closed = c.ending == "close" || c.ending == "fin" || c.ending == "close-near-timeout" || (c.ending == "silent" && hb.is_some());
             if closed && discs.len() != 1 {
                 rr.violate("C12/R3", format!("disconnect-handler-called-{}-times:{}:{}", discs.len().min(2), c.ending, cfg), format!("client {} ended by {}; disconnect handler calls: {}", cid, c.ending, discs.len()));
             }
